@@ -33,17 +33,50 @@ def parseFrames : List String → Option (List Frame)
 
 def optionsWith (depth : Int) : List Int := [0, depth, 0, 0, 0, 0, 1, 0, 0]
 
+/-- the return path of `opt()` the final `Logger(...)` call sits on (the last one of the table) -/
+def lastOptPath : DepthFwd := (Gen.optPaths.getLast?.map (·.2)).getD .param
+
+/-- one token of a derivation history: `b` bind, `p` patch, `od` opt() without depth, `o<int>` opt(depth=<int>) -/
+def parseDeriv (t : String) : Option Deriv :=
+  if t = "b" then some .bind
+  else if t = "p" then some .patch
+  else if t = "od" then some (.opt Gen.optDepthDefault lastOptPath)
+  else if t.startsWith "o" then (t.drop 1).toInt?.map (fun d => .opt d lastOptPath)
+  else none
+
+def parseDerivs (t : String) : Option (List Deriv) :=
+  if t = "-" then some [] else (t.splitOn ".").mapM parseDeriv
+
 def step (line : String) : String :=
   match line.splitOn " " with
+  | "s" :: kind :: nm :: seq :: tid :: pid :: now :: start :: frames =>
+    -- a record made through `loguru.logger.<derivation history>`: the model computes the options itself
+    match decTok nm, parseDerivs seq, tid.toInt?, pid.toInt?, now.toInt?, start.toInt?, parseFrames frames with
+    | some nm, some ds, some tid, some pid, some now, some start, some us =>
+      let ex : Exec := { threadId := tid, threadName := [], processId := pid, processName := [], now := now, start := start }
+      match derivedFromRoot 0 ds with
+      | .error e => "err " ++ toString e
+      | .ok opts =>
+        let res : Option (Except Err Record) :=
+          if kind = "m" then
+            (Gen.methods.find? (fun m => m.name == nm)).map (fun m => logViaMethodC libFrame m opts us ex)
+          else if kind = "c" then
+            (Gen.catchRows.find? (fun w => w.shape == nm)).map (fun w => logViaCatchC libFrame w opts us ex)
+          else none
+        match res with
+        | some (.ok r) => "ok " ++ showRecord r
+        | some (.error e) => "err " ++ toString e
+        | none => "bad-op"
+    | _, _, _, _, _, _, _ => "bad-op"
   | kind :: nm :: depth :: tid :: pid :: now :: start :: frames =>
     match decTok nm, depth.toInt?, tid.toInt?, pid.toInt?, now.toInt?, start.toInt?, parseFrames frames with
     | some nm, some depth, some tid, some pid, some now, some start, some us =>
       let ex : Exec := { threadId := tid, threadName := [], processId := pid, processName := [], now := now, start := start }
       let res : Option (Except Err Record) :=
         if kind = "m" then
-          (Gen.methods.find? (fun m => m.name == nm)).map (fun m => logViaMethod libFrame m (optionsWith depth) us ex)
+          (Gen.methods.find? (fun m => m.name == nm)).map (fun m => logViaMethodC libFrame m (optionsWith depth) us ex)
         else if kind = "c" then
-          (Gen.catchRows.find? (fun w => w.shape == nm)).map (fun w => logViaCatch libFrame w (optionsWith depth) us ex)
+          (Gen.catchRows.find? (fun w => w.shape == nm)).map (fun w => logViaCatchC libFrame w (optionsWith depth) us ex)
         else none
       match res with
       | some (.ok r) => "ok " ++ showRecord r
